@@ -502,6 +502,7 @@ type spc =
 | SCan
 | SCan2
 | SCan3 of nat
+| SCan4 of nat * nat
 | SDone
 
 type selst =
@@ -515,6 +516,7 @@ type cnst =
 | CnIdle
 | Cn1
 | Cn2 of nat
+| Cn3 of nat * nat
 
 type tst =
 | TFree
@@ -527,6 +529,8 @@ type home =
 | HSlot of nat
 | HSel of nat
 | HFast of nat
+| HCan of nat
+| HKCan of nat
 | HAwake
 
 type res =
@@ -575,6 +579,7 @@ type action =
 | CancelSet of nat
 | CancelIo of nat
 | CancelTake of nat
+| CancelNull of nat
 | Tick of nat
 | Shutdown of nat
 | Spurious of nat
@@ -1035,12 +1040,15 @@ let step cap peer selof fixB fixD calm s = function
           (match s.co f' with
            | Some c ->
              Some
-               (wake
-                 (let s0 =
-                    wco (wS s (upd s.sb k (s_pc y SDone))) (upd s.co f' None)
-                  in
-                  if fixD then disarm s0 f' false else s0) c)
+               (wA
+                 (wco (wS s (upd s.sb k (s_pc y (SCan4 (f', c)))))
+                   (upd s.co f' None)) (upd s.a c (a_home (s.a c) (HKCan k))))
            | None -> Some (wS s (upd s.sb k (s_pc y SDone))))
+        | SCan4 (f', c) ->
+          Some
+            (wake
+              (let s0 = wS s (upd s.sb k (s_pc y SDone)) in
+               if fixD then disarm s0 f' false else s0) c)
         | SDone -> None)
   else None
 | SelEvent (g, f) ->
@@ -1127,10 +1135,17 @@ let step cap peer selof fixB fixD calm s = function
      (match s.co f with
       | Some c ->
         Some
-          (wake
-            (let s0 = wco (wCn s (upd s.cn a0 CnIdle)) (upd s.co f None) in
-             if fixD then disarm s0 f false else s0) c)
+          (wA (wco (wCn s (upd s.cn a0 (Cn3 (f, c)))) (upd s.co f None))
+            (upd s.a c (a_home (s.a c) (HCan a0))))
       | None -> Some (wCn s (upd s.cn a0 CnIdle)))
+   | _ -> None)
+| CancelNull a0 ->
+  (match s.cn a0 with
+   | Cn3 (f, c) ->
+     Some
+       (wake
+         (let s0 = wCn s (upd s.cn a0 CnIdle) in
+          if fixD then disarm s0 f false else s0) c)
    | _ -> None)
 | Tick d -> Some (wnow s (add s.now d))
 | Shutdown f ->
@@ -1473,6 +1488,14 @@ let flush_for m a0 =
      | SEvT (_, c) ->
        if Nat.eqb c a0 then (SelDisarm (g, false)) :: [] else []
      | _ -> [])
+  | HCan b ->
+    (match m.cn b with
+     | Cn3 (_, c) -> if Nat.eqb c a0 then (CancelNull b) :: [] else []
+     | _ -> [])
+  | HKCan k ->
+    (match (m.sb k).spc_ with
+     | SCan4 (_, c) -> if Nat.eqb c a0 then (Sub (k, false)) :: [] else []
+     | _ -> [])
   | _ -> []
 
 (** val pick_timer : st -> nat -> nat -> nat option -> nat option **)
@@ -1517,9 +1540,9 @@ let is_err v =
 let mstep calm cap =
   step cap peerv selv true true calm
 
-(** val mkplan : ast -> z list -> plan **)
+(** val mkplan : bool -> ast -> z list -> plan **)
 
-let mkplan s e =
+let mkplan calm s e =
   let m = s.ms in
   let x = s.ax in
   (match e with
@@ -1901,7 +1924,15 @@ let mkplan s e =
                         | XH ->
                           let x' = set_tm x (upd x.tm t0 MNone) in
                           (match x.tm t0 with
-                           | MKer k -> obs x' (is_done (m.sb k).spc_)
+                           | MKer k ->
+                             actsp
+                               (match (m.sb k).spc_ with
+                                | SCan4 (f', _) ->
+                                  set_cnull x' (upd x'.cnull f' (m.tmr f'))
+                                | _ -> x')
+                               (match (m.sb k).spc_ with
+                                | SCan4 (_, _) -> (Sub (k, false)) :: []
+                                | _ -> []) (fun m' -> is_done (m'.sb k).spc_)
                            | _ -> ok x'))
                      | XO p2 ->
                        (match p2 with
@@ -1990,8 +2021,10 @@ let mkplan s e =
                                                       | Some _ -> None
                                                       | None ->
                                                         chk
-                                                          (eqb (znz v)
-                                                            (m.flag f'))
+                                                          ((&&)
+                                                            (eqb (znz v)
+                                                              (m.flag f'))
+                                                            (negb calm))
                                                           (acts
                                                             (set_cnull
                                                               (set_sel x sth
@@ -2017,18 +2050,16 @@ let mkplan s e =
                                                                 (app
                                                                   ((SelFire
                                                                   (f',
-                                                                  e0)) :: [])
-                                                                  (app
-                                                                    (
-                                                                    if 
+                                                                  e0)) :: ((Spurious
+                                                                  f') :: ((SelEvent
+                                                                  (f',
+                                                                  f')) :: [])))
+                                                                  (if 
                                                                     m.pend f'
-                                                                    then []
-                                                                    else 
+                                                                   then 
                                                                     (Spurious
-                                                                    f') :: [])
-                                                                    ((SelEvent
-                                                                    (f',
-                                                                    f')) :: [])))))))
+                                                                    f') :: []
+                                                                   else []))))))
                                                    | _ -> None)
                                                 | None -> None))
                                           | None -> None)
@@ -2271,12 +2302,7 @@ let mkplan s e =
                                             chk
                                               (eqb (znz v)
                                                 (is_some (m.co f')))
-                                              (acts
-                                                (if znz v
-                                                 then set_cnull x
-                                                        (upd x.cnull f'
-                                                          (m.tmr f'))
-                                                 else x) ((Sub (k,
+                                              (acts x ((Sub (k,
                                                 false)) :: []))
                                           | _ -> None)
                                        | _ ->
@@ -2287,12 +2313,7 @@ let mkplan s e =
                                                chk
                                                  (eqb (znz v)
                                                    (is_some (m.co f')))
-                                                 (acts
-                                                   (if znz v
-                                                    then set_cnull x
-                                                           (upd x.cnull f'
-                                                             (m.tmr f'))
-                                                    else x) ((CancelTake
+                                                 (acts x ((CancelTake
                                                    c) :: []))
                                              | _ -> None)
                                           | None -> ok x))
@@ -2435,7 +2456,17 @@ let mkplan s e =
                            | _ -> None)
                         | _ ->
                           if pc_eqb (m.a c).apc Susp
-                          then acts x2
+                          then acts
+                                 (match (m.a c).ahome with
+                                  | HCan _ ->
+                                    set_cnull x2
+                                      (upd x2.cnull (m.a c).afd
+                                        (m.tmr (m.a c).afd))
+                                  | HKCan _ ->
+                                    set_cnull x2
+                                      (upd x2.cnull (m.a c).afd
+                                        (m.tmr (m.a c).afd))
+                                  | _ -> x2)
                                  (app (flush_for m c) ((Resume c) :: []))
                           else obs x2 (outside (m.a c).apc)))
                   | _ -> None)
@@ -2492,7 +2523,7 @@ let accept_ev calm s e =
     then Some { ms = init; ax = s.ax; acap = n; fresh = true }
     else None
   | None ->
-    (match mkplan s e with
+    (match mkplan calm s e with
      | Some p0 ->
        let (p1, x') = p0 in
        let (al, post) = p1 in
